@@ -192,7 +192,7 @@ try:
     # B. all 2^5 flag subsets on a reduced lattice (one rule violated at a time)
     for mask in range(32):
         flags = {f for j, f in enumerate(FLAGS) if mask >> j & 1}
-        for rule in ["vmin", "omax", "imin", "cmax", "past", "ok"]:
+        for rule in ["vmin", "omax", "imin", "cmax", "past", "ok", "gap0", "gap0eq"]:
             n = R.choice([2, 3, 9])
             zsk = zsk_for(False)
             incs, exps = baseline(n, validity=D(days=19))
@@ -210,6 +210,16 @@ try:
                 exps[-1] = incs[-1] + D(days=19)
             elif rule == "past":
                 now = exps[0] + D(seconds=1)
+            elif rule in ("gap0", "gap0eq"):
+                # back to back: the next bundle begins exactly when the previous one ends (overlap zero, below the declared minimum)
+                if rule == "gap0eq":
+                    zsk = zsk_for(True)
+                    incs, exps = baseline(n, validity=D(days=21))
+                j = R.randrange(1, n)
+                shift = exps[j - 1] - incs[j]
+                for q in range(j, n):
+                    incs[q] += shift
+                    exps[q] += shift
             run_case("flags-" + rule, n, incs, exps, zsk, kw, now, desc={"flags_on": sorted(flags), "rule": rule})
 
     # C. random timelines (varied validity per bundle, equal expirations, shuffled document order)
